@@ -91,12 +91,32 @@ pub fn to_lossy_bytes(input: &str) -> Cow<[u8]> {
     // all utf-8 characters are no longer than 4 bytes.
     let mut buf = [0; 4];
 
+    // was the previous character the control character?
+    let mut after_control = false;
+
     'outer: for c in input.chars() {
         // all codepages share ascii values
         if c.is_ascii() {
+            // A codepage marker that is already part of the text (i.e. ^8, which is both the
+            // default colour and a reset to Latin-1) changes what the receiver uses to decode
+            // everything after it, so we have to follow it.
+            if after_control {
+                if let Some(encoding) = c.as_lfs_codepage() {
+                    current_control = if c.propagate_lfs_codepage() {
+                        DEFAULT_CODEPAGE
+                    } else {
+                        c
+                    };
+                    current_encoding = encoding;
+                }
+            }
+            after_control = c.is_lfs_control_char();
+
             output.push(c as u8);
             continue;
         }
+
+        after_control = false;
 
         buf.fill(0);
         let char_as_bytes = c.encode_utf8(&mut buf);
